@@ -387,3 +387,59 @@ def run(ck):
     # the escape introducer tested by the reader is the backslash, and a trailing lone backslash is copied
     intro = any((c := comparison(uf, i)) and c[0] in ('!=', '==') and const_value(uf, c[2]) == 92 for i in uf.walk())
     ck.ob('C29.sib', 'C29.sib/introducer', intro, uf.loc(), 'the reader recognises the backslash as escape introducer')
+
+    # ---- whole-buffer I/O on both ends advances by what the system call transferred -------------------------------------------------
+    from props.common import io_progress_ok
+    n_io = 0
+    for Pq, label in ((PC, 'client'), (PS, 'server')):
+        for f in Pq.fns:
+            short_ = f.q.split('::')[-1]
+            if short_ not in ('send_all', 'recv_exact') or not f.file.endswith(('ControlClient.cpp', 'ControlServer.cpp')):
+                continue
+            n_io += 1
+            ck.touch(f)
+            ok_io, node_io = io_progress_ok(f, ('send', 'recv'))
+            ck.ob('C29.io', 'C29.io/%s/%s/advance-by-returned-count' % (label, short_), ok_io, f.loc(node_io) if node_io is not None else f.loc(),
+                  '%s %s advances its offset by the count send()/recv() returned: a short transfer is continued, not skipped over' % (label, short_))
+    ck.floor('C29.io', 'whole-buffer I/O helpers of the control plane', n_io, 4)
+
+    # ---- a payload that is announced is sent: send_response writes payload.data()..size() whenever has_payload && size() > 0, in one piece ----
+    sr = [f for f in PS.fns if f.q.endswith('::send_response')]
+    if len(sr) != 1:
+        raise AnalysisBroken('ControlServer send_response not found')
+    sr = sr[0]
+    ck.touch(sr)
+    pay_d = sr.params[3]['d']
+    uses = [i for i in sr.walk() if sr.nodes[i]['k'] == 'CXXMemberCallExpr' and (sr.nodes[i].get('callee') or '').endswith('::data') and
+            declref(sr, sr.receiver(i), pay_d) is not None]
+    sends = [i for i in sr.walk() if (sr.nodes[i].get('callee') or '').endswith('send_all') and any(u in set(sr.walk(i)) for u in uses)]
+    ok_pay = False
+    why_pay = 'payload.data() is used %d time(s), in %d send_all call(s)' % (len(uses), len(sends))
+    if len(sends) == 1 and len(uses) <= 2:
+        guard = None
+        for a_ in sr.ancestors(sends[0]):
+            if sr.nodes[a_]['k'] == 'IfStmt':
+                guard = sr.nodes[a_]['cond']
+                break
+        if guard is not None:
+            def conj(n):
+                n = sr.strip(n)
+                if sr.nodes[n]['k'] == 'BinaryOperator' and sr.nodes[n].get('op') == '&&':
+                    return conj(sr.kids(n)[0]) + conj(sr.kids(n)[1])
+                return [n]
+            bad_c = []
+            for c_ in conj(guard):
+                cn = sr.nodes[c_]
+                cmp_ = comparison(sr, c_)
+                if cn['k'] == 'DeclRefExpr' and (cn.get('t') or '').replace('const ', '') == 'bool':
+                    continue
+                if cmp_ and cmp_[0] in ('>', '!=') and const_value(sr, cmp_[2]) == 0 and (sr.nodes[sr.strip(cmp_[1])].get('callee') or '').endswith('::size'):
+                    continue
+                if cn['k'] == 'UnaryOperator' and cn.get('op') == '!' and (sr.nodes[sr.strip(sr.kids(c_)[0])].get('callee') or '').endswith('::empty'):
+                    continue
+                bad_c.append(sr.text(c_)[:60])
+            ok_pay = not bad_c
+            if bad_c:
+                why_pay = 'the payload write is also conditioned on `%s`' % bad_c[0]
+    ck.ob('C29.sender', 'C29.sender/payload-sent-when-announced', ok_pay, sr.loc(sends[0]) if sends else sr.loc(),
+          'send_response writes the payload bytes in a single send_all, conditioned only on has_payload and a non-zero size (%s)' % why_pay)
